@@ -194,6 +194,9 @@ def run_parse_rules(res, ast):
                     p = a["pat"]
                     if p["t"] == "PLit" and p["lit"]["kind"] == "char" and a["guard"] is None:
                         arms[p["lit"]["value"]] = a
+                    elif p["t"] == "POr" and a["guard"] is None and all(c_["t"] == "PLit" and c_["lit"].get("kind") == "char" for c_ in p["cases"]):
+                        for c_ in p["cases"]:        # one arm shared by several command characters
+                            arms[c_["lit"]["value"]] = a
                     elif p["t"] == "PWild" and a["guard"] is None:
                         default = a
                     else:
@@ -205,8 +208,11 @@ def run_parse_rules(res, ast):
                           f"{IR}|parse|default", where(IR, default or m, "parse"), "the default arm of parse must be empty")
                 # nothing else in the loop body looks at the character
                 uses = [n for n in walk_t(main["body"], "PathExpr") if n["path"]["name"] == cvar]
+                # looking at the character again inside an arm for command characters is harmless (a comment never gets there)
+                in_cmd_arms = {id(n_) for a_ in arms.values() for n_ in walk_t(a_["body"], "PathExpr") if n_["path"]["name"] == cvar}
+                uses = [n for n in uses if id(n) not in in_cmd_arms]
                 res.check(len(uses) == 1, "COMMENT-INERT", f"{IR}|parse|char-uses", where(IR, main, "parse"),
-                          f"the character is inspected {len(uses)} times in the loop body; only the dispatching match may look at it")
+                          f"the character is inspected {len(uses)} times outside the command arms; only the dispatching match may look at it")
                 # statements before the match must not return/continue/break (they would skip dispatch for some characters)
                 pre = []
                 for s in main["body"]["stmts"]:
@@ -596,8 +602,43 @@ def run_cmd_table(res, ast):
     try:
         pf = ast.fn(IR, "parse")
         pm = [m for m in walk_t(pf["node"]["body"], "Match") if any(a["pat"]["t"] == "PLit" and a["pat"]["lit"]["kind"] == "char" for a in m["arms"])]
-        parms = {a["pat"]["lit"]["value"]: a for a in pm[0]["arms"] if a["pat"]["t"] == "PLit"}
+        disp_ = pm[0]
+        cvar = path_name(strip_paren(disp_["expr"]))
         import pm
+
+        def fold_char_tests(n_, ch_):
+            """an arm shared by several characters (`'+' | '-' => ..`) specialised to one of them: tests of the character are decided"""
+            if isinstance(n_, list):
+                return [fold_char_tests(x_, ch_) for x_ in n_]
+            if not isinstance(n_, dict):
+                return n_
+            n_ = {k_: (fold_char_tests(v_, ch_) if isinstance(v_, (dict, list)) else v_) for k_, v_ in n_.items()}
+            if n_.get("t") == "If" and n_.get("else") is not None and n_["else"].get("t") == "BlockExpr":
+                c_ = strip_paren(n_["cond"])
+                if c_["t"] == "Binary" and c_["op"] in ("==", "!="):
+                    for a_, b_ in ((c_["left"], c_["right"]), (c_["right"], c_["left"])):
+                        a_, b_ = strip_paren(a_), strip_paren(b_)
+                        while a_["t"] == "Unary" and a_["op"] == "*":
+                            a_ = strip_paren(a_["expr"])
+                        if path_name(a_) == cvar and b_["t"] == "Lit" and b_.get("kind") == "char":
+                            truth = (b_["value"] == ch_) == (c_["op"] == "==")
+                            blk_ = n_["then"] if truth else n_["else"]["block"]
+                            st_ = blk_["stmts"]
+                            if len(st_) == 1 and st_[0]["t"] == "ExprStmt" and not st_[0]["semi"]:
+                                return st_[0]["expr"]
+                            return {"t": "BlockExpr", "sp": n_["sp"], "label": None, "block": blk_}
+            return n_
+        parms = {}
+        for a in disp_["arms"]:
+            if a["pat"]["t"] == "PLit" and a["pat"]["lit"].get("kind") == "char":
+                parms[a["pat"]["lit"]["value"]] = a
+            elif a["pat"]["t"] == "POr" and all(c_["t"] == "PLit" and c_["lit"].get("kind") == "char" for c_ in a["pat"]["cases"]):
+                for c_ in a["pat"]["cases"]:
+                    spec = fold_char_tests(a["body"], c_["lit"]["value"])
+                    if strip_paren(spec)["t"] == "BlockExpr":
+                        b_ = strip_paren(spec)
+                        spec = {**b_, "block": {**b_["block"], "stmts": pm.normalize_stmts(b_["block"]["stmts"], light=True)}}
+                    parms[c_["lit"]["value"]] = {**a, "body": spec}
         for ch, op in ((">", "+="), ("<", "-=")):
             ok = pm.match_expr(parms[ch]["body"], "{ *__v_shift " + op + " 1; }") is not None
             res.check(ok, "CMD-TABLE", f"{IR}|parse|cmd|{ch}", where(IR, parms[ch], "parse"),
